@@ -348,7 +348,16 @@ func (tl *loader) load(keys ...string) {
 			defer sem.Release(1)
 			defer wg.Done()
 
-			shard, err := loadShard(key)
+			shard, err := func() (_ zoekt.Searcher, err error) {
+				// A corrupt shard must not take the server down: a panic
+				// while loading is a load failure.
+				defer func() {
+					if r := recover(); r != nil {
+						err = fmt.Errorf("panic while loading shard: %v", r)
+					}
+				}()
+				return loadShard(key)
+			}()
 			if err != nil {
 				metricShardsLoadFailedTotal.Inc()
 				log.Printf("[ERROR] reloading: %s, err %v ", key, err)
